@@ -1,5 +1,5 @@
 (* C08 correspondence: cases written by harness/cmd/c08 are evaluated here by vm_compute. *)
-From PF Require Export Base.Bytes Formats.PlyRead Formats.PlyReadV2 Formats.PlyText Check.Common.
+From PF Require Export Base.Bytes Formats.PlyRead Formats.PlyReadV2 Formats.PlyText Formats.PlyBig Check.Common.
 From Coq Require Import String.
 Open Scope list_scope.
 Open Scope N_scope.
@@ -7,7 +7,15 @@ Open Scope N_scope.
 (* what ply.ReadMesh did *)
 Inductive outcome := OMesh (m : mesh) | ODeclared | OCrash | OHang.
 
+(* ... on a file past the internal block sizes: only fingerprints come back (Formats/PlyBig.v) *)
+Inductive bigout := BMesh (f : meshfp) | BDeclared | BCrash | BHang.
+
 Inductive case :=
+| CBig (g : bigspec) (hdr : list (list string)) (bodyfp : N) (out : bigout)
+                                                      (* a file given by a formula (Formats/PlyBig.v: [big_expand g] is the
+                                                         abstract file); hdr: the header lines the tokenizer found in the bytes
+                                                         given to polyform; bodyfp: fingerprint of the body bytes (binary) or of
+                                                         the body's tokens (ascii) of that file; out: fingerprints of the mesh *)
 | CSpec (a : absfile) (f : plyfile) (out : outcome)   (* a: abstract file the harness' reference encoder started from;
                                                          f: what an independent tokenizer sees in the bytes given to polyform *)
 | CElems (a : absfile) (f : plyfile) (out : outcome)  (* as CSpec, but the file also holds elements the abstract file does
@@ -71,9 +79,22 @@ Definition header_agrees (a : absfile) (f : plyfile) : bool :=
   | Err _ => false
   end.
 
+Definition big_matches (r : result mesh) (o : bigout) : bool :=
+  match r, o with
+  | Ok m, BMesh f => mesh_matches_fp m f
+  | Err EEof, BDeclared | Err EDeclared, BDeclared => true
+  | Err ECrash, BCrash => true
+  | Err EUnsupported, _ => true
+  | _, _ => false
+  end.
+
 (* model vs implementation; also ties the Coq reference encoder to the harness' Go reference encoder *)
 Definition corr_ok (c : case) : bool :=
   match c with
+  | CBig g hdr bodyfp out =>
+      let a := big_expand g in
+      let f := {| pf_header := hdr; pf_body := enc_body a |} in
+      header_agrees a f && fp_is (fp_body (enc_body a)) bodyfp && big_matches (read_mesh f) out
   | CSpec a f out => header_agrees a f && body_agrees (enc_body a) (pf_body f) && outcome_matches (read_mesh f) (adjust a out)
   | CElems a f out => outcome_matches (read_mesh f) (adjust a out)
   | CMisplaced _ _ => true
@@ -84,6 +105,11 @@ Definition corr_ok (c : case) : bool :=
 (* the property itself on the implementation's output: the file loads, to the mesh the abstract file describes *)
 Definition prop_ok (c : case) : bool :=
   match c with
+  | CBig g _ _ out =>
+      match describe (big_expand g), out with
+      | Ok m, BMesh f => mesh_matches_fp m f
+      | _, _ => false
+      end
   | CSpec a _ out | CElems a _ out =>
       match describe a, adjust a out with
       | Ok m, OMesh m' => mesh_eqb m m'
